@@ -166,14 +166,14 @@ class ResetDetachCheck(SeqCheck):
     def __init__(self, prop, pred, text):
         super().__init__(prop, pred, text)
         self.script_bad = []
-        self.extra = lambda ctx, seqrun, stats, divs: run_script_suite(self, ctx, stats, machines=('x',))
+        self.extra = lambda ctx, seqrun, stats, divs: run_script_suite(self, ctx, stats, machines=('x', '3x'))
     def decide(self, ctx, divs, proof_broken, log):
         mine = [d for d in divs if d.kind == 'spec' and self.pred(d)]
         if self.script_bad and not mine:
             what, text, path = min(self.script_bad, key=lambda b: len(b[1]))
             word = 'reset' if ctx.prop == 'C11' else 'detach'
             ctx.violation(f'an execution of the proved reset / detached machine (RAx: interleaving + stale reads) does not replay on the real crate: {what} ({len(self.script_bad)} cases)',
-                          '## S-script case (replay: .build/cargo/debug/concrun2 <file with this case>)\n' + text, no_input=(f'cmd C {word}' not in text))
+                          '## S-script case (replay: .build/cargo/debug/concrun2 <file with this case>)\n' + text, no_input=(f'cmd C {word}' not in text and f'cmd W {word}' not in text))
             return
         super().decide(ctx, divs, proof_broken, log)
 for pid, pred in (('C11', is_c11), ('C12', is_c12)):
@@ -476,15 +476,15 @@ WITNESS = {
                'drop protocol, two iterators: both make their last access, both clear their bit with a relaxed RMW, the last one frees without having synchronised with the other\'s last access'),
 }
 
-def run_script_suite(self, ctx, stats, machines=('2n', '3n', 'x')):
+def run_script_suite(self, ctx, stats, machines=('2n', '3n', 'x', '3x')):
     """S-script: executions of the proved release/acquire machine (RAn, extracted) - interleavings and STALE reads chosen by the
     machine - replayed on the real crate with two OS threads under a scripted scheduler (harness/src/bin/concrun.rs)"""
     self.script_bad = []
-    bindir, log = ctx.build_harness(('concrun', 'concrun2'))
+    bindir, log = ctx.build_harness(('concrun', 'concrun2', 'concrun3x'))
     if bindir is None:
         self.script_bad.append(('concrun does not build against the current /repo tree', log[-3000:], None)); return
     with common.Lock('coq'):
-        rc, out = ctx._make(['Conc/RA3n.vo', 'Conc/RAx.vo'])
+        rc, out = ctx._make(['Conc/RA3n.vo', 'Conc/RAx.vo', 'Conc/RA3x.vo'])
         if rc != 0:
             self.script_bad.append(('the machines RA3n / RAx no longer compile', out[-3000:], None)); return
         def stale(target, srcs):
@@ -509,6 +509,7 @@ def run_script_suite(self, ctx, stats, machines=('2n', '3n', 'x')):
         jobs.append(('2n', 'concmodel', ['gen', sd, str(n // shards), '9'], 'concrun', k))
         jobs.append(('3n', 'concmodel2', ['gen3', sd, str(n // shards), '7'], 'concrun2', k))
         jobs.append(('x', 'concmodel2', ['genx', sd, str(n // shards), '7'], 'concrun2', k))
+        jobs.append(('3x', 'concmodel3x', ['gen', sd, str(n // shards), '7'], 'concrun3x', k))
     for kind, gen, gargs, runner, k in jobs:
         if kind not in machines: continue
         path = os.path.join(ctx.work, f'script-{kind}-{k}.cases')
@@ -539,7 +540,7 @@ def run_script_suite(self, ctx, stats, machines=('2n', '3n', 'x')):
         if rc not in (0, 1) and not self.script_bad:
             self.script_bad.append((f'{runner} exited with code {rc}', res[-2000:], path))
     ctx.notes['script_suite'] = {'cases': total, 'ok': ok, 'atomic_events': events, 'per_machine': dict(kinds),
-                                 'generator': 'concmodel gen (extracted RAn.step_a), concmodel2 gen3 / genx (extracted RA3n.step3_a, RAx.step_a); stale reads via pick'}
+                                 'generator': 'concmodel gen (extracted RAn.step_a), concmodel2 gen3 / genx (extracted RA3n.step3_a, RAx.step_a), concmodel3x gen (extracted RA3x.step3_a); stale reads via pick'}
     stats.histories += total; stats.steps += events
 
 def run_drop_suite(self, ctx, stats):
@@ -707,6 +708,9 @@ CHECKS['C02'] = ConcCheck('C02', is_c02, CONC_TEXT)
 CHECKS['C03'] = ConcCheck('C03', is_c03, CONC_TEXT)
 CHECKS['C07'] = ConcCheck('C07', is_c07, CONC_TEXT)
 CHECKS['C10'] = ConcCheck('C10', is_c10, CONC_TEXT)
+for pid in ('C02', 'C03', 'C10'):
+    # machine tie: the thread-local arithmetic of the machines = the kernels translated from the source on every run
+    CHECKS[pid].propfiles = [f'Props/{pid}.v', 'Props/KTie.v']
 
 
 # ------------------------------------------------------------------------------------------- C17 (vmem)
